@@ -33,6 +33,13 @@ impl<'a> StatementAnalyzer<'a> {
     }
 
     pub fn evaluate_statement(&mut self) -> Result<(), TracedInterpreterError> {
+        self.program().enter_nested_evaluation()?;
+        let result = self.evaluate_statement_unguarded();
+        self.program().exit_nested_evaluation();
+        result
+    }
+
+    fn evaluate_statement_unguarded(&mut self) -> Result<(), TracedInterpreterError> {
         match self.program().next_token() {
             Some(Token::Stop) => Ok(()),
             Some(Token::Dim) => self.evaluate_dim_statement(),
